@@ -20,7 +20,7 @@ use crate::util::*;
 pub const PROP: Prop = Prop {
     id: "C10",
     level: "exploration",
-    rule: "(on every input the twelve one-shot entry points - from_*, from_*_custom, datum::from_*, datum::from_*_custom for str, slice and reader, and str::parse - are compared: to the letter within a source kind, value and error message across source kinds; the span and shape of every car reached through as_pair are compared with the item list_iter yields) inputs from printed values in several dialects (multi-datum streams), mutations of them, token-alphabet sequences and arbitrary bytes x sampled parser option sets (all 1536 reachable) x three sources; the value API and the datum API are run to the end or first error on fresh parsers and compared item by item (value equality, same terminal event with identical message, location and category); value_iter, datum_iter and Iterator for Parser must give the same sequences; every datum is walked recursively through Ref::list_iter (with peek/is_empty), vector_iter, as_pair, Deref and compared with the value's own accessors; non-trivial = at least 2 datums, or a composite datum, or malformed input that yields an item before failing; distinct by digest of (input, options, source)",
+    rule: "(on every input the one-shot entry points - from_*, from_*_custom, from_*_elisp, datum::from_*, datum::from_*_custom, datum::from_*_elisp for str, slice and reader, str::parse, and Parser::expect_value / parse_value / expect_datum followed by expect_end - are compared: to the letter within a source kind, value and error message across source kinds; the span and shape of every car reached through as_pair are compared with the item list_iter yields) inputs from printed values in several dialects (multi-datum streams), mutations of them, token-alphabet sequences and arbitrary bytes x sampled parser option sets (all 1536 reachable) x three sources; the value API and the datum API are run to the end or first error on fresh parsers and compared item by item (value equality, same terminal event with identical message, location and category); value_iter, datum_iter and Iterator for Parser must give the same sequences; every datum is walked recursively through Ref::list_iter (with peek/is_empty), vector_iter, as_pair, Deref and compared with the value's own accessors; non-trivial = at least 2 datums, or a composite datum, or malformed input that yields an item before failing; distinct by digest of (input, options, source)",
     assumptions: &["iteration stops at the first error (continuing after an error is C12's subject)"],
     run,
     replay,
@@ -244,6 +244,35 @@ pub fn check_case(c: &Case, label: &str) -> CaseResult {
                     results.push(("datum::from_str", dat(lexpr::datum::from_str(s))));
                     results.push(("str::parse", val(s.parse::<Value>())));
                 }
+            }
+            if c.q == QOpt::elisp().index() {
+                results.push(("from_slice_elisp", val(lexpr::parse::from_slice_elisp(input))));
+                results.push(("datum::from_slice_elisp", dat(lexpr::datum::from_slice_elisp(input))));
+                results.push(("from_reader_elisp", val(lexpr::parse::from_reader_elisp(Cursor::new(input)))));
+                results.push(("datum::from_reader_elisp", dat(lexpr::datum::from_reader_elisp(Cursor::new(input)))));
+                if let Ok(s) = std::str::from_utf8(input) {
+                    results.push(("from_str_elisp", val(lexpr::parse::from_str_elisp(s))));
+                    results.push(("datum::from_str_elisp", dat(lexpr::datum::from_str_elisp(s))));
+                }
+            }
+            // the single-datum methods of a parser agree with the one-shot functions
+            {
+                let one = |r: lexpr::parse::Result<Value>, end: lexpr::parse::Result<()>| -> R { r.and_then(|v| end.map(|_| v)).map(|v| MV::from_value(&v)).map_err(|e| e.to_string()) };
+                let mut p = Parser::from_slice_custom(input, opts);
+                let v = p.expect_value();
+                let e = if v.is_ok() { p.expect_end() } else { Ok(()) };
+                results.push(("Parser(slice)::expect_value+expect_end", one(v, e)));
+                #[allow(deprecated)]
+                {
+                    let mut p = Parser::from_slice_custom(input, opts);
+                    let v = p.parse_value();
+                    let e = if v.is_ok() { p.expect_end() } else { Ok(()) };
+                    results.push(("Parser(slice)::parse_value+expect_end", one(v, e)));
+                }
+                let mut p = Parser::from_slice_custom(input, opts);
+                let d = p.expect_datum();
+                let e = if d.is_ok() { p.expect_end() } else { Ok(()) };
+                results.push(("Parser(slice)::expect_datum+expect_end", one(d.map(Value::from), e)));
             }
             // within one source kind the two APIs agree to the letter (value,
             // or error message with its location); across source kinds values
